@@ -168,7 +168,7 @@ struct Runner {
                    std::vector<std::pair<const char*, const char*>>& ranges) {
     if (mode == 'X') {
       for (auto it = fx->begin(); it != fx->end(); ++it) { elems.push_back({it->id, it->val}); addrs.push_back(&*it); }
-      size = fx->size(); tabs = std::to_string(fx->bucket_count());
+      size = fx->size(); tabs = std::string(fx->_controls == Fixed::Group::s_dummy_controls ? "d" : "") + std::to_string(fx->bucket_count());
       if (fx->_values) ranges.push_back({(const char*)fx->_values, (const char*)(fx->_values + fx->bucket_count())});
     } else if (mode == 'S') {
       for (auto it = st->begin(); it != st->end(); ++it) { elems.push_back({it->id, it->val}); addrs.push_back(&*it); }
@@ -227,7 +227,7 @@ int main() {
         }
       });
     }
-    verif::Options opt; opt.seed = seed; opt.strategy = strategy; opt.max_steps = 400000;
+    verif::Options opt; opt.seed = seed; opt.strategy = strategy; opt.max_steps = 60000;
     if (choices != "-") { std::stringstream cs(choices); std::string c; while (std::getline(cs, c, ',')) opt.choices.push_back(atoi(c.c_str())); }
     verif::Result r = verif::run(bodies, opt);
     // ---------------------------------------------------------------- canonical outcome
